@@ -35,7 +35,9 @@ RULE = ('ctx cases: random structured tables (1x1, rows with no crosses, ...) x 
         '((a, inf), (-inf, b), inf, -inf, (inf, inf), (-inf, -inf): json writes Infinity) and empty sets; fc/pc cases: concepts built by from_objects '
         'with measures (incl. values 0, 0.0, False, None, the empty string), plus non-canonical ones (is_extent with a permuted subset, foreign name orders); lat cases: '
         'lattices of formal contexts (plain and monotone) and of many-valued contexts (numpy path), incl. < 3 '
-        'concepts, measures hand-set (zero-like values included) and computed by calc_concepts_measures; contexts, '
+        'concepts, measures hand-set (zero-like values included) and computed by calc_concepts_measures, histories '
+        'before writing (re-adding the top / the bottom / inner concepts, removing and adding inner concepts, merging '
+        'a second lattice), the lattice being judged by the order of its concept list; contexts, '
         'concepts and lattices with 11-14 objects / attributes / pattern structures (string keys, sorted orders); '
         'non-trivial = table not constant and at least 2x2 (ctx/mv), >= 4 concepts (lat)')
 FMT = {'cxt': 0, 'csv': 1, 'json': 2, 'pandas': 3}
@@ -580,6 +582,58 @@ def lat_fields(L):
     return [cs, children, int(L.top), int(L.bottom)]
 
 
+def order_view(cs, observed):
+    """Cover relation, top and bottom that the ORDER of the concepts defines (extent inclusion, reversed
+    for monotone concepts), computed from the concept fields alone; where the order has no unique top /
+    bottom the observed one is kept."""
+    ext = [set(f[0]) for _, f in cs]
+    mono = [bool(f[6]) if t == 'F' else False for t, f in cs]
+    n = len(cs)
+
+    def leq(i, j):
+        return ext[j] <= ext[i] if mono[i] else ext[i] <= ext[j]
+
+    def lt(i, j):
+        return leq(i, j) and not leq(j, i)
+    children = [[i, [j for j in range(n) if lt(j, i) and not any(lt(j, k) and lt(k, i) for k in range(n))]]
+                for i in range(n)]
+    tops = [i for i in range(n) if all(leq(j, i) for j in range(n))]
+    bottoms = [i for i in range(n) if all(leq(i, j) for j in range(n))]
+    return [cs, children, tops[0] if len(tops) == 1 else observed[2], bottoms[0] if len(bottoms) == 1 else observed[3]]
+
+
+def apply_history(L, K, ops, r0):
+    """A history before writing: re-add concepts the lattice already has (top, bottom, inner ones), remove
+    inner concepts, add them again (new elements), merge a second lattice of the same context."""
+    from fcapy.lattice import ConceptLattice
+    for op in ops:
+        try:
+            n = len(L)
+            if op == 'readd_top':
+                L.add(L[L.top])
+            elif op == 'readd_bottom':
+                L.add(L[L.bottom])
+            elif op == 'readd_inner':
+                L.add(L[r0.randrange(n)])
+            elif op == 'remove_inner':
+                inner = [i for i in range(n) if i not in (L.top, L.bottom)]
+                if inner and n > 3:
+                    L.remove(L[r0.choice(inner)])
+            elif op == 'remove_add':
+                inner = [i for i in range(n) if i not in (L.top, L.bottom)]
+                if inner and n > 3:
+                    c = L[r0.choice(inner)]
+                    L.remove(c)
+                    L.add(c)
+            elif op == 'merge':
+                other = ConceptLattice.from_context(K, is_monotone=True) if getattr(L, 'is_monotone', False) \
+                    else ConceptLattice.from_context(K)
+                for c in other:
+                    L.add(c)
+        except (KeyError, AssertionError, ValueError, IndexError):   # poset surgery is C09-C11's business
+            pass
+
+
 def concepts_term(cs):
     return '[' + '; '.join(('(PC %s)' % pcv_term(f)) if t == 'P' else ('(FC %s)' % fcv_term(f)) for t, f in cs) + ']'
 
@@ -619,14 +673,16 @@ def run_lat(case):
                 L.calc_concepts_measures(mode, K) if mode == 'stability' else L.calc_concepts_measures(mode)
             except Exception:  # noqa  (computing measures is C16's business)
                 pass
-    inp = lat_fields(L)
+    apply_history(L, K, case.get('history', []), r0)
+    obs = lat_fields(L)
+    inp = order_view(obs[0], obs)
     objs, attrs = list(K.object_names), list(K.attribute_names)
     w = guarded(lambda: L.write_json(objs, attrs), 30)
     if w[0] != 'ok':
-        return {'in': inp, 'orders': [objs, attrs], 'w': ['err', w[1], w[2]], 'r': ['err', 'Other', '']}
+        return {'in': inp, 'obs': obs, 'orders': [objs, attrs], 'w': ['err', w[1], w[2]], 'r': ['err', 'Other', '']}
     text = w[1]
     r = guarded(lambda: lat_fields(ConceptLattice.read_json(json_data=text)), 30)
-    return {'in': inp, 'orders': [objs, attrs], 'w': ['json', json.loads(text)],
+    return {'in': inp, 'obs': obs, 'orders': [objs, attrs], 'w': ['json', json.loads(text)],
             'r': ['ok', r[1]] if r[0] == 'ok' else ['err', r[1], r[2]]}
 
 
@@ -644,7 +700,7 @@ def children_term(ch):
 
 def lat_to_coq(case, o):
     if o.get('skip'):
-        return 'LatCase [] [] (mk_latv [] [] 0 0) (WErr 6) (RLatErr 11)'
+        return 'LatCase [] [] (mk_latv [] [] 0 0) (RLatErr 11) (WErr 6) (RLatErr 11)'
     cs, ch, top, bottom = o['in']
     pattern = bool(cs) and cs[0][0] == 'P'
     w = o['w']
@@ -655,8 +711,10 @@ def lat_to_coq(case, o):
         rt = '(RLat %s %s %d %d)' % (concepts_term(cs2), children_term(ch2), t2, b2)
     else:
         rt = err_term('RLatErr', r)
-    return 'LatCase %s %s (mk_latv %s %s %d %d) %s %s' % (
-        nstrs(o['orders'][0]), nstrs(o['orders'][1]), concepts_term(cs), children_term(ch), top, bottom, wt, rt)
+    ob = o['obs']
+    obt = '(RLat [] %s %d %d)' % (children_term(ob[1]), ob[2], ob[3])
+    return 'LatCase %s %s (mk_latv %s %s %d %d) %s %s %s' % (
+        nstrs(o['orders'][0]), nstrs(o['orders'][1]), concepts_term(cs), children_term(ch), top, bottom, obt, wt, rt)
 
 
 # ------------------------------------------------------------------ dispatch
@@ -669,7 +727,7 @@ FALLBACK = {
     'mv': lambda case: 'MvCase (mk_smv [] [] None [] []) (WErr 12) (RMvErr 12)',
     'fc': lambda case: 'FcCase [] [] (mk_fcv [] [] [] [] [] None false) (WErr 12) (RFcErr 12)',
     'pc': lambda case: 'PcCase (mk_pcv [] [] [] [] [] [] None) (WErr 12) (RPcErr 12)',
-    'lat': lambda case: 'LatCase [] [] (mk_latv [] [] 0 0) (WErr 12) (RLatErr 12)',
+    'lat': lambda case: 'LatCase [] [] (mk_latv [] [] 0 0) (RLatErr 12) (WErr 12) (RLatErr 12)',
 }
 
 
@@ -973,7 +1031,11 @@ def lat_case(rng, tier):
         mono = False
     modes = rng.sample(['hand', 'zeros', 'zeros', 'stability_bounds', 'log_stability_lbound', 'stability'],
                        rng.randint(0, 3))
-    return {'kind': 'lat', 'ctx': K, 'mono': mono, 'measures': modes, 'mseed': rng.randrange(10 ** 6),
+    history = []
+    if rng.random() < 0.5:
+        history = [rng.choice(['readd_top', 'readd_top', 'readd_bottom', 'readd_inner', 'remove_inner', 'remove_add',
+                               'merge', 'merge']) for _ in range(rng.randint(1, 4))]
+    return {'kind': 'lat', 'ctx': K, 'mono': mono, 'measures': modes, 'history': history, 'mseed': rng.randrange(10 ** 6),
             'max_concepts': 24 if tier == 'quick' else 40}
 
 
@@ -1035,6 +1097,7 @@ def stats(case):
         d['stream'] = case['kind'] + ':' + case.get('stream', '') + ':' + case.get('level', 'json')
     else:
         d['lattice'] = ('pattern' if 'ptypes' in case['ctx'] else 'formal') + (':monotone' if case.get('mono') else '')
+        d['lat_history'] = '+'.join(sorted(set(case.get('history', [])))) or 'none'
     return d
 
 
@@ -1103,6 +1166,11 @@ def shrink(case):
             out.append(c)
     elif k == 'lat':
         K = case['ctx']
+        if case.get('history'):
+            for i in range(len(case['history'])):
+                c = dict(case)
+                c['history'] = case['history'][:i] + case['history'][i + 1:]
+                out.append(c)
         if case.get('measures'):
             c = dict(case)
             c['measures'] = list(case['measures'])[:-1] if isinstance(case['measures'], list) else []
